@@ -11,6 +11,10 @@ const (
 	msgTypeObjectOrArray string = `object/array`
 )
 
-var emptyEntity = struct{}{}
+// emptyEntityType is private to this package, so that no value of a source document
+// can ever be mistaken for the "no value" marker.
+type emptyEntityType struct{}
+
+var emptyEntity = emptyEntityType{}
 var emptyList = []interface{}{emptyEntity}
 var fullList = []interface{}{true}
